@@ -106,7 +106,13 @@ def oracle(ctx, seeds=None):
             res.fail('riemann/%s:raised' % flux, errs, rp); continue
         # decrease under refinement, with 15 % slack between consecutive meshes: the L1 error of a nearly stationary contact
         # (resolved almost exactly by HLLC) fluctuates by a few percent with its alignment to the grid
-        if not (np.all(np.isfinite(errs)) and errs[2] < errs[0] and errs[1] < 1.15 * errs[0] and errs[2] < 1.15 * errs[1]):
+        # plus the alignment term of a slow contact: while the contact has travelled d = |u*| T of the order of a cell or less it is a
+        # sub-cell step whose L1 error |rho*L - rho*R| * O(min(d, h)) depends on its position in the cell, not on h (pre-asymptotic)
+        ps, us = riemann_exact.star(gam, L, R)
+        eps_ = 1e-9 * (abs(us) + cL)
+        jump = abs(float(riemann_exact.sample(gam, L, R, np.array([us - eps_]))[0][0]) - float(riemann_exact.sample(gam, L, R, np.array([us + eps_]))[0][0]))
+        al = [0.5 * jump * min(abs(us) * T, 2.0 / n) for n in (50, 100, 200)]
+        if not (np.all(np.isfinite(errs)) and errs[2] < errs[0] + al[2] and errs[1] < 1.15 * errs[0] + al[1] and errs[2] < 1.15 * errs[1] + al[2]):
             res.fail('riemann/%s:not-decreasing' % flux, "L1 density errors %r on 50/100/200 cells (L=%r R=%r, %s, muscl=%r)" % (errs, L, R, integ, muscl), rp)
         res.stats['riemann_rate_%d' % i] = round(float(np.log2(errs[0] / errs[2]) / 2), 2)
     # ---- packaged reference solutions vs the independent solver
